@@ -1,7 +1,7 @@
 (* Main.v — single entry point of the extracted model: one request tree in, one
    response tree out.  The OCaml driver only parses and prints trees. *)
 From Coq Require Import String List.
-From Prov Require Import Str Sexp Tables Nsm Scope Values Record World Jtree Json JsonSpec Provn ProvnSpec XmlSpec IO Dot Xml XmlLabel XmlRec XmlRead XmlScope Rdf Rdfq RdfVal Dotg Interp.
+From Prov Require Import Str Sexp Tables Nsm Scope Values Record World Jtree Json JsonSpec Provn ProvnSpec XmlSpec IO Dot Xml XmlLabel XmlRec XmlRead XmlScope Rdf Rdfq RdfVal Dotg DotLabel Interp.
 Import ListNotations.
 Open Scope string_scope.
 
@@ -232,6 +232,22 @@ Definition run (req : sexp) : sexp :=
       | _, _ => A "bad-request"
       end
   | L [A "dotquote"; A s] => L [A (dot_quote s); A (html_escape s)]
+  (* the annotation table of a record: rows (attribute URI, printed name, href or "none", text); answer: the label
+     text of the model and the verdict of the HTML-label acceptor on it *)
+  | L [A "annlabel"; L rows] =>
+      let px_row (x : sexp) : option ann_row_data :=
+        match x with
+        | L [A u; A n; A "none"; A t] => Some (mkRow u n None t)
+        | L [A u; A n; L [A "some"; A h]; A t] => Some (mkRow u n (Some h) t)
+        | _ => None
+        end in
+      match px_list px_row rows with
+      | Some rs => L [A (ann_label rs); A (if html_label_ok (ann_label rs) then "true" else "false")]
+      | None => A "bad-request"
+      end
+  | L [A "fancylabel"; A l; A i] => L [A (fancy_label l i); A (if html_label_ok (fancy_label l i) then "true" else "false")]
+  (* the acceptor alone, on a label text of the implementation *)
+  | L [A "htmlok"; A s] => A (if html_label_ok s then "true" else "false")
   | L [A "destpath"; A name] =>
       match dest_path name with Some p => L [A "some"; A p] | None => L [A "none"] end
   | L [A "provnspec"; A text] =>
